@@ -204,6 +204,33 @@ def run(verdict, tier):
                                       detail={"got": U if isinstance(U, str) else U.tolist(),
                                               "want": want.tolist() if not isinstance(U, str) else None})
     counters["grid_units_cases"] = n_gu
+    # ---- nonlinear scaling switched off: an explicit all-zero flag vector (what BADS passes for
+    # options['nonlinear_scaling'] = False) means "affine everywhere", also on log-eligible coordinates ------------
+    n_off = 0
+    for quads in ([(1e-3, 1e-2, 1e2, 1e3)], [(1.0, 2.0, 500.0, 1000.0), (-4.0, -2.0, 2.0, 4.0)],
+                  [(0.1, 1.0, 1e5, math.inf), (1e-2, 1e-1, 1e1, 1e2), (-3.0, -1.0, 1.0, 3.0)]):
+        D = len(quads)
+        args = [np.array([[q[i] for q in quads]], dtype=float) for i in (0, 3, 1, 2)]
+        for flags in (np.zeros((1, D)), np.zeros((1, D), dtype=bool)):
+            n_off += 1
+            try:
+                vt0 = VariableTransformer(D, args[0], args[1], args[2], args[3], apply_log_t=flags)
+                got = np.asarray(vt0.apply_log_t).astype(bool).ravel()
+            except Exception as e:
+                verdict.violation("C11.valid_bounds_accepted", site="VariableTransformer.__init__:flags_off",
+                                  where=f"bounds={quads}", detail={"error": repr(e)[:120]})
+                continue
+            if got.any():
+                verdict.violation("C11.log_rule", site="VariableTransformer:nonlinear_scaling_off", where=f"bounds={quads}",
+                                  detail={"got": got.tolist(), "want": [False] * D})
+            else:
+                # affine: the midpoint of the plausible range maps to 0
+                mid = np.array([[0.5 * (q[1] + q[2]) for q in quads]])
+                y = np.asarray(vt0(mid), dtype=float).ravel()
+                if not np.allclose(y, 0.0, atol=1e-9):
+                    verdict.violation("C11.exact_image", site="VariableTransformer:nonlinear_scaling_off",
+                                      where=f"bounds={quads}", detail={"y": y.tolist(), "want": 0.0})
+    counters["scaling_off_cases"] = n_off
     # ---- mixed transformers (D = 2, 3): the masking code ----------------------
     logs = [q for q in qs if groups[q]["mode"] == "log"]
     lins = [q for q in qs if groups[q]["mode"] == "lin"]
